@@ -14,10 +14,12 @@ from . import tables
 
 LEVEL = "other"
 MANIFEST = {
-    "text": "decides clauses D1 (pre-computed per-back-end initial values equal the specification in all "
-            "three encodings) and D2 (acquire/release balance: typestate over the whole call graph in the "
-            "CHECK_ACQUIRE_RELEASE build for every share triple) only; byte-identical results of arbitrary "
-            "workloads across configurations are a functional property and are not decided",
+    "text": "decides D1 (pre-computed per-back-end initial values equal the specification in all three "
+            "encodings), D2 (acquire/release balance: typestate over the whole call graph in the "
+            "CHECK_ACQUIRE_RELEASE build for every share triple, abort unreachable) and D3 (alias safety of the "
+            "per-back-end block primitives); functional agreement of the C back ends follows from C01-C08 being "
+            "decided per back end against one specification; results of the non-x86 assembly back ends are not "
+            "decided",
     "note": "trusted: clang/LLVM-14 lowering and irdump; storage callbacks and libc do not touch the checker "
             "flag; CFG paths over-approximate feasible paths; oracle = python model of the ASCON permutation "
             "self-checked against the published HASH/XOF/HASHA/XOFA states",
